@@ -169,12 +169,41 @@ def _orientation_carried(ck: Checker, prog: Program):
         if len(cs) != 1:
             raise AnalysisError(f"{fq}: constructor call not found")
         dv = kwarg(cs[0], "degrees_from_north")
-        if dv is not None and unparse(dv) == f"{srcname}.degrees_from_north":
+        from ..resolve import Resolver, canon
+        RR = Resolver(prog, f, inline=False)
+        st = cs[0]
+        while not isinstance(st, ast.stmt):
+            st = parent_of(st)
+        good = dv is not None and canon(RR.value(dv, st)) == canon(RR.expect(f"{srcname}.degrees_from_north"))
+        if good:
             ck.ok(P + "R1", fq, f"degrees_from_north={unparse(dv)}", detail="derived recordings carry the current orientation")
         else:
             ck.violation(P + "R1", fq, norm_key(cs[0], 110),
                          f"the derived recording is given degrees_from_north={unparse(dv) if dv is not None else '<default 0>'} instead of the source's "
                          f"current orientation: a later orient_sensor_to rotates it by the wrong angle", loc=f.loc(cs[0]))
+    # the constructor records the orientation it is given (reduced to [0, 360)), whatever the metadata says
+    from ..pathtable import PathTable
+    init = prog.func("seismic_recording_3c.SeismicRecording3C.__init__")
+    leaves = [l for l in PathTable(prog, init.module, unroll=True).leaves(init.node.body) if l.exit != "raise"]
+    D = sp.Symbol("degrees_from_north", real=True)
+    want = D - 360 * sp.floor(D / 360)
+    bad = []
+    for l in leaves:
+        last = None
+        for e in l.events:
+            if e[0] == "store" and e[1] == "self.degrees_from_north":
+                last = e[2]
+        if last is None:
+            bad.append("a path does not record the orientation")
+            continue
+        v = last.args[0] if getattr(getattr(last, "func", None), "__name__", "") == "float" and len(last.args) == 1 else last
+        if not equal(v, want):
+            bad.append(f"self.degrees_from_north <- {last}")
+    if not bad and leaves:
+        ck.ok(P + "R1", init.qualname, "self.degrees_from_north = argument reduced to [0, 360)", detail=f"{len(leaves)} paths")
+    else:
+        ck.violation(P + "R1", init.qualname, "recorded orientation",
+                     f"the constructor does not record the orientation it is given ({'; '.join(sorted(set(bad))[:2])}): orient_sensor_to would rotate by the wrong angle", loc=init.loc())
 
 
 def _r2(ck: Checker, prog: Program):
